@@ -114,8 +114,14 @@ def _stencils(ctx):
                 sizes.append(v_ + 9)
     ctx.note(f"record lengths of the stencil instances: {sizes} (thresholds taken from the comparisons in timeshift)") if hasattr(ctx, "note") else None
     combos = [(h_, b_, n) for h_ in ((1, 2, 3, 4) if thorough else (1, 2, 3)) for b_ in blockings] + [(h_, None, n_) for n_ in sizes[1:] for h_ in ((1, 2, 3) if thorough else (2,))]
+    # a large shift with a small fractional part in a record long enough to hold it: relative tolerances (np.isclose / allclose defaults) grow with
+    # the magnitude of the shift, so "is this shift a whole number of samples" must not be decided by them
+    BIG = (Fr(2500) + Fr(1, 50), 2600)
+    combos = combos + [(2, None, BIG[1])]
     for halfp, blocking, n in combos:
-        for shift in ((Fr(9, 4), Fr(-7, 2), Fr(3, 4), Fr(-1, 8), Fr(5), Fr(16, 3)) if thorough else (Fr(9, 4), Fr(-7, 2), Fr(3, 4))):
+        shifts_ = ((Fr(9, 4), Fr(-7, 2), Fr(3, 4), Fr(-1, 8), Fr(5), Fr(16, 3)) if thorough else (Fr(9, 4), Fr(-7, 2), Fr(3, 4)))
+        if n == BIG[1]: shifts_ = (BIG[0],)
+        for shift in shifts_:
             for path in ("constant", "varying", "drifting"):
                 I = Interp(repo)
                 seen = []
@@ -181,7 +187,7 @@ def _stencils(ctx):
                         detail = f"result not recognised: {r1!r}"[:200] + on; 
                         if verdict == VIOLATED: break
                         continue
-                    interior = range(halfp + 4, n - halfp - 5)
+                    interior = range(max(halfp + 4, halfp + 1 - si), min(n - halfp - 5, n - si - halfp - 2))
                     if len(interior) > 40: interior = sorted(set(list(interior[:8]) + list(interior[len(interior) // 2 - 4:len(interior) // 2 + 4]) + list(interior[-8:])))
                     for m in interior:
                         g = subst_val(A.body, {A.axes[0][0]: X.const(m)})
